@@ -240,3 +240,31 @@ def two_module_generic_case(rng, rec, prefix, det_extra=None):
     finally:
         fam.dispose()
         other.dispose()
+
+
+def engine_over_native(fam, t, natives):
+    """finding F45 mechanism: a dataclass field carrying a NamedTuple engine option (serialize='as_dict' | 'as_list')
+    whose type holds - outside collections, i.e. where the field's metadata still travels - a type the format dialect
+    declares native."""
+    natives = set(natives)
+    if not natives:
+        return False
+
+    def reach(tt, seen):
+        s = tast.strip(tt)
+        k = s[0]
+        if k in natives:
+            return True
+        if k in ("seq", "map", "counter", "chainmap", "dc", "gdc"):
+            return False                 # metadata is dropped for collection elements; nested classes have their own
+        if k in ("nt", "td") and s[1] not in seen:
+            seen.add(s[1])
+            return any(reach(f["t"], seen) for f in fam.defs[s[1]]["fields"])
+        return any(reach(c, seen) for c in tast.children(s))
+    for name, d in fam.defs.items():
+        if d.get("k") != "dc":
+            continue
+        for f in d["fields"]:
+            if not f.get("raw") and (f.get("meta") or {}).get("serialize") in ("'as_dict'", "'as_list'") and reach(f["t"], set()):
+                return True
+    return False
